@@ -128,12 +128,94 @@ func (ff *flagFlow) summary(g *ssa.Function, actuals []*Term, depth int) []pairN
 			}
 		}
 	}
+	// stores made on g's behalf: g hands the object to a helper / method that stores into its flag
+	for _, b := range ff.behalfStores(g) {
+		n++
+		cur := map[string]pairNT{}
+		for _, p := range ff.behalfPairs(b, depth) {
+			q := pairNT{p.N.subst(actuals), p.T.subst(actuals)}
+			cur[q.String()] = q
+		}
+		if common == nil {
+			common = cur
+		} else {
+			for k := range common {
+				if _, ok := cur[k]; !ok {
+					delete(common, k)
+				}
+			}
+		}
+	}
 	var out []pairNT
 	if n == 0 {
 		return nil
 	}
 	for _, p := range common {
 		out = append(out, p)
+	}
+	return out
+}
+
+// behalfStore: a non-constant store into the flag of an object that the storing function received as a parameter,
+// seen from one static call site of that function.
+type behalfStore struct {
+	s  FieldStore
+	cs ssa.CallInstruction
+}
+
+// behalfStores lists the stores made for g by the module functions it calls directly.
+func (ff *flagFlow) behalfStores(g *ssa.Function) []behalfStore {
+	var out []behalfStore
+	for _, b := range g.Blocks {
+		for _, in := range b.Instrs {
+			cs, ok := in.(ssa.CallInstruction)
+			if !ok {
+				continue
+			}
+			h := cs.Common().StaticCallee()
+			if h == nil || h == g || len(h.Blocks) == 0 || !hasModPrefix(h) {
+				continue
+			}
+			for _, s := range ff.stores {
+				if s.Fn != h {
+					continue
+				}
+				if _, isPrm := s.Base.(*ssa.Parameter); !isPrm {
+					continue
+				}
+				if _, isConst := s.Val.(*ssa.Const); isConst {
+					continue
+				}
+				out = append(out, behalfStore{s, cs})
+			}
+		}
+	}
+	return out
+}
+
+// behalfPairs: what the store establishes when the stored value is false, in the coordinates of the call site's
+// function: the helper's facts with its parameters replaced by the actual arguments (so the flag of a call result
+// handed in resolves through that call's summary).
+func (ff *flagFlow) behalfPairs(b behalfStore, depth int) []pairNT {
+	fs := ff.storeFacts(b.s)
+	if fs.Bottom {
+		return nil
+	}
+	act := callActuals(b.cs)
+	return ff.pairsFrom(substSet(fs, act), termOf(b.s.Base).subst(act), depth+1)
+}
+
+// callSitesOf lists the static call sites of fn in the module.
+func (ff *flagFlow) callSitesOf(fn *ssa.Function) []ssa.CallInstruction {
+	var out []ssa.CallInstruction
+	for _, f := range ff.c.P.AllFuncs {
+		for _, b := range f.Blocks {
+			for _, in := range b.Instrs {
+				if cs, ok := in.(ssa.CallInstruction); ok && cs.Common().StaticCallee() == fn {
+					out = append(out, cs)
+				}
+			}
+		}
 	}
 	return out
 }
@@ -197,8 +279,16 @@ func (ff *flagFlow) check(id string, what string) int {
 				continue
 			}
 			// constant false: only as accumulator initialiser
+			nBehalf := 0
+			for _, b := range ff.behalfStores(s.Fn) {
+				if i := paramIndexOf(b.s.Base.(*ssa.Parameter)); i >= 0 && i < len(b.cs.Common().Args) && b.cs.Common().Args[i] == s.Base {
+					nBehalf++
+				}
+			}
 			if nonConst > 0 && len(siblings) > 1 {
 				c.Hold(id, "FIELDFLOW", construct, pos, fmt.Sprintf("constant false is the initialiser of an accumulator (%d accumulating stores on the same object)", nonConst))
+			} else if nBehalf > 0 {
+				c.Hold(id, "FIELDFLOW", construct, pos, fmt.Sprintf("constant false is the initialiser of an accumulator (%d accumulating stores on the same object in the helpers it is handed to)", nBehalf))
 			} else {
 				c.Viol(id, "FIELDFLOW", construct, pos, "unconditional false stored into "+ff.field.Name()+": "+what+" is claimed without any test")
 			}
@@ -210,6 +300,29 @@ func (ff *flagFlow) check(id string, what string) int {
 			continue
 		}
 		pairs := ff.storePairs(s, 0)
+		if _, isPrm := s.Base.(*ssa.Parameter); isPrm && len(pairs) == 0 {
+			// a helper that stores into an object it was handed: judged at each of its call sites
+			sites := ff.callSitesOf(s.Fn)
+			okAll := len(sites) > 0
+			for _, cs := range sites {
+				if len(ff.behalfPairs(behalfStore{s, cs}, 0)) == 0 {
+					okAll = false
+					pos = instrPos(cs)
+				}
+			}
+			if okAll {
+				_, prev := fs.find(func(f Fact) bool {
+					x, ok := ff.isFlagFalse(f)
+					return ok && sameTerm(x, termOf(s.Base))
+				})
+				if !prev {
+					c.Viol(id, "FIELDFLOW", construct, pos, fmt.Sprintf("accumulating store can overwrite an earlier true of %s (stored value false does not imply previous value false)", ff.field.Name()))
+				} else {
+					c.Hold(id, "FIELDFLOW", construct, pos, fmt.Sprintf("false only with the justification at each of its %d call sites", len(sites)))
+				}
+				continue
+			}
+		}
 		if len(pairs) == 0 {
 			c.Viol(id, "FIELDFLOW", construct, pos, fmt.Sprintf("value stored into %s can be false without %s; facts when false: %s", ff.field.Name(), what, trunc(fs.String(), 400)))
 			continue
